@@ -168,6 +168,19 @@ func keysPrefSuf(n int) []string {
 	return out
 }
 
+// fan(L): 2L two-byte keys {x}{a|b} for L distinct first bytes: root node with L labels, L child nodes of 2 labels.
+// The LOUDS vector has 1+L ones and 3L bits; sweeping L moves the 64th/128th... one and the vector end across every
+// alignment to the 64-bit words (select samples every 64 ones) - the family exists for rank/select boundary errors.
+func keysFan(l int) []string {
+	var out []string
+	for x := 0; x < l; x++ {
+		for _, y := range []byte{'a', 'b'} {
+			out = append(out, string([]byte{byte(1 + x), y}))
+		}
+	}
+	return out
+}
+
 // n sequential keys "k0","k1",...: many keys are proper prefixes of others ("k1" < "k10" < "k100")
 func keysSeq(n int) []string {
 	out := make([]string, n)
@@ -199,7 +212,7 @@ func (d caseDesc) String() string {
 		}
 		return s
 	}
-	return fmt.Sprintf("large %s n=%d assign=%d-way", d.Name, d.N, maxAssign(d.Assign))
+	return fmt.Sprintf("large %s n=%d assign=%d-way section=%d", d.Name, d.N, maxAssign(d.Assign), d.Section)
 }
 
 func maxAssign(a []int) int {
@@ -224,6 +237,8 @@ func (d caseDesc) materialise() (keys []string, vals []uint32) {
 			keys = keysPrefSuf(d.N)
 		case "seq":
 			keys = keysSeq(d.N)
+		case "fan":
+			keys = keysFan(d.N)
 		default:
 			panic("harness: unknown large set " + d.Name)
 		}
